@@ -208,6 +208,53 @@ rewrite /taq; elim: z => [|x z IH]; first by rewrite big_nil.
 by rewrite big_cons IH hornerC sgz1 /= intS.
 Qed.
 
+(* plain variations at two points where no member vanishes count the roots strictly between them *)
+Lemma chain_points ch (F : {poly R}) ya yb : F != 0 -> pposs ch (mods F F^`()) -> ya < yb ->
+  all (fun p => ~~ root p ya) ch -> all (fun p => ~~ root p yb) ch ->
+  (changes (ev ya ch) - changes (ev yb ch))%N = size (roots F ya yb).
+Proof.
+move=> F0 st yayb nra nrb.
+have tr y : all (fun p => ~~ root p y) ch -> all (fun p => ~~ root p y) (mods F F^`()).
+  have : pposs ch (mods F F^`()) := st.
+  elim: (ch) (mods F F^`()) => [|p ch' IH] [|m ms] //= [[k k0 ->] /IH {}IH].
+  by rewrite rootZ ?gt_eqF // => /andP[-> /IH].
+have := changes_itv_mods_cindex yayb (tr _ nra) (tr _ nrb).
+rewrite /changes_itv_mods /changes_itv_poly /changes_horner -/(ev ya _) -/(ev yb _).
+rewrite -(changes_sgr (ev ya _)) -(changes_sgr (ev yb _)) -!(pposs_ev _ st) !changes_sgr.
+have := taq_cindex ya yb F 1; rewrite mulr1 taq1_size => <-.
+move: (changes (ev ya ch)) (changes (ev yb ch)) (size _) => m n k h.
+have le : (n <= m)%N by rewrite -lez_nat -subr_ge0 h.
+by apply/eqP; rewrite -eqz_nat -subzn // h.
+Qed.
+
+Lemma prod_nonroot ch y : ~~ root (\prod_(p <- ch) p) y -> all (fun p => ~~ root p y) ch.
+Proof. by elim: ch => [|p ch IH] //=; rewrite big_cons rootM negb_or => /andP[-> /IH]. Qed.
+
+Lemma prod_root_head ch y : ch != [::] -> root (head 0 ch) y -> root (\prod_(p <- ch) p) y.
+Proof. by case: ch => [|p ch] //= _ py; rewrite big_cons rootM py. Qed.
+
+Lemma changes_minfty_ev ch y0 : all (fun p => p != 0) ch ->
+  (forall y, y <= y0 -> ~~ root (\prod_(p <- ch) p) y) -> changes_minfty ch = changes (ev y0 ch).
+Proof.
+move=> nzs nr; rewrite /changes_minfty -changes_sgr -[RHS]changes_sgr /ev -!map_comp; congr changes.
+apply/eq_in_map => p pin /=.
+have p0 : p != 0 := allP nzs _ pin.
+have nrp : {in `]-oo, y0], forall y, ~~ root p y}.
+  by move=> y; rewrite in_itv /= => /nr /prod_nonroot /allP /(_ _ pin).
+rewrite (sgp_minftyP nrp) ?in_itv /= ?lexx // /sgp_minfty; congr (sgr (_ * _)).
+by rewrite -[in RHS]signr_odd [in LHS](polySpred p0) /= negbK.
+Qed.
+
+Lemma changes_pinfty_ev ch y0 : all (fun p => p != 0) ch ->
+  (forall y, y0 <= y -> ~~ root (\prod_(p <- ch) p) y) -> changes_pinfty ch = changes (ev y0 ch).
+Proof.
+move=> nzs nr; rewrite /changes_pinfty -changes_sgr -[RHS]changes_sgr /ev -!map_comp; congr changes.
+apply/eq_in_map => p pin /=.
+have nrp : {in `[y0, +oo[, forall y, ~~ root p y}.
+  by move=> y; rewrite in_itv /= andbT => /nr /prod_nonroot /allP /(_ _ pin).
+by rewrite (sgp_pinftyP nrp) ?in_itv /= ?lexx.
+Qed.
+
 (* Sturm's theorem on (a, b] for a chain positively proportional to mods F F', zeros skipped, provided the last
    member (= gcd(F, F') up to a constant) does not vanish at a and b *)
 Theorem sturm_chain_itv ch (F : {poly R}) a b : F != 0 -> pposs ch (mods F F^`()) -> Rlinks ch ->
@@ -261,6 +308,107 @@ apply/andP/andP => [[yaz zyb]|[az zb]]; split.
 - by rewrite leNgt; apply/negP => bz; have := nob z; rewrite bz (ltW zyb) rz => /(_ isT).
 - by rewrite ltNge; apply/negP => zya; have := noa z; rewrite az zya rz => /(_ isT).
 - exact: le_lt_trans zb byb.
+Qed.
+
+
+Lemma right_point ch (F : {poly R}) x c : F != 0 -> pposs ch (mods F F^`()) -> Rlinks ch ->
+  ~~ root (last 0 ch) x -> x < c ->
+  exists y, [/\ x < y < c, Vskip x ch = changes (ev y ch), all (fun p => ~~ root p y) ch
+              & forall z, x < z <= y -> ~~ root F z].
+Proof.
+move=> F0 st lk lst xc.
+have nzs : all (fun p => p != 0) ch := pposs_neq0 st (mods_neq0 _ _).
+pose P := \prod_(p <- ch) p.
+have P0 : P != 0 by rewrite /P prodf_seq_neq0.
+have [y yin] := neighpr_wit xc P0; exists y.
+have xy : x < y by move: yin; rewrite /neighpr in_itv /= => /andP[].
+have yc : y < c.
+  move: yin; rewrite /neighpr in_itv /= => /andP[_ h]; apply: lt_le_trans h _.
+  by have := next_root_in P x c; rewrite in_itv /= (max_l (ltW xc)) => /andP[].
+have hd : ppos (head 0 ch) F by have := pposs_hd2 F0 st; case: (ch) => [|p0 rest] // [].
+have ne : ch != [::] by have := pposs_hd2 F0 st; case: (ch).
+split; first by rewrite xy.
+- by rewrite (Vskip_right F0 st lk lst) -(changes_right yin).
+- exact/prod_nonroot/(neighpr_root yin).
+- move=> z /andP[xz zy]; have zin : z \in neighpr P x c.
+    by move: yin; rewrite /neighpr !in_itv /= xz /= => /andP[_]; exact: le_lt_trans.
+  have := neighpr_root zin; apply: contra => Fz; apply: prod_root_head => //.
+  by have [k k0 ->] := hd; rewrite rootZ // gt_eqF.
+Qed.
+
+Lemma cauchy_root_gt (P : {poly R}) z : P != 0 -> root P z -> - cauchy_bound P < z < cauchy_bound P.
+Proof.
+move=> P0 Pz; apply/andP; split.
+  by rewrite ltNge; apply/negP => h; have := le_cauchy_bound P0 (_ : z \in `]-oo, - cauchy_bound P]); rewrite ?in_itv //= Pz => /(_ h).
+by rewrite ltNge; apply/negP => h; have := ge_cauchy_bound P0 (_ : z \in `[cauchy_bound P, +oo[); rewrite ?in_itv /= ?andbT // Pz => /(_ h).
+Qed.
+
+(* half lines *)
+Theorem sturm_chain_minf ch (F : {poly R}) b : F != 0 -> pposs ch (mods F F^`()) -> Rlinks ch ->
+  ~~ root (last 0 ch) b ->
+  (changes_minfty ch - Vskip b ch)%N = size [seq x <- rootsR F | x <= b].
+Proof.
+move=> F0 st lk lst.
+have nzs : all (fun p => p != 0) ch := pposs_neq0 st (mods_neq0 _ _).
+pose P := \prod_(p <- ch) p.
+have P0 : P != 0 by rewrite /P prodf_seq_neq0.
+have hd : ppos (head 0 ch) F by have := pposs_hd2 F0 st; case: (ch) => [|p0 rest] // [].
+have ne : ch != [::] by have := pposs_hd2 F0 st; case: (ch).
+have FP z : root F z -> root P z.
+  by move=> Fz; apply: prod_root_head => //; have [k k0 ->] := hd; rewrite rootZ // gt_eqF.
+have bb1 : b < b + 1 by rewrite ltr_addl ltr01.
+have [yb [/andP[byb _] -> nrb nob]] := right_point F0 st lk lst bb1.
+pose y0 := minr (- cauchy_bound P) b - 1.
+have y0cb : y0 <= - cauchy_bound P by rewrite /y0 ler_subl_addr le_minl ler_addl ler01.
+have y0b : y0 < b by rewrite /y0 ltr_subl_addr lt_minl [b < b + 1]bb1 orbT.
+have nr0 y : y <= y0 -> ~~ root P y.
+  move=> yy0; apply/negP => /(cauchy_root_gt P0) /andP[h _].
+  by have := le_lt_trans (le_trans yy0 y0cb) h; rewrite ltxx.
+rewrite (changes_minfty_ev nzs nr0).
+rewrite (chain_points F0 st (lt_trans y0b byb) (prod_nonroot (nr0 _ (lexx _))) nrb).
+congr size; apply: lt_sorted_eq; first exact: sorted_roots.
+  by apply: sorted_filter (sorted_roots _ _ F); exact: lt_trans.
+move=> z; rewrite mem_filter in_rootsR // in_roots F0 andbT in_itv /= andbC.
+case rz: (root F z); rewrite ?andbF //= !andbT.
+have y0z : y0 < z.
+  by have /andP[h _] := cauchy_root_gt P0 (FP _ rz); exact: le_lt_trans y0cb h.
+rewrite y0z /=; apply/idP/idP => [zyb|zb]; last exact: le_lt_trans zb byb.
+by rewrite leNgt; apply/negP => bz; have := nob z; rewrite bz (ltW zyb) rz => /(_ isT).
+Qed.
+
+Theorem sturm_chain_pinf ch (F : {poly R}) a : F != 0 -> pposs ch (mods F F^`()) -> Rlinks ch ->
+  ~~ root (last 0 ch) a ->
+  (Vskip a ch - changes_pinfty ch)%N = size [seq x <- rootsR F | a < x].
+Proof.
+move=> F0 st lk lst.
+have nzs : all (fun p => p != 0) ch := pposs_neq0 st (mods_neq0 _ _).
+pose P := \prod_(p <- ch) p.
+have P0 : P != 0 by rewrite /P prodf_seq_neq0.
+have hd : ppos (head 0 ch) F by have := pposs_hd2 F0 st; case: (ch) => [|p0 rest] // [].
+have ne : ch != [::] by have := pposs_hd2 F0 st; case: (ch).
+have FP z : root F z -> root P z.
+  by move=> Fz; apply: prod_root_head => //; have [k k0 ->] := hd; rewrite rootZ // gt_eqF.
+pose y1 := maxr (cauchy_bound P) a + 2%:R.
+have ay1' : a + 1 < y1.
+  by rewrite /y1 -[2%:R]/(1 + 1) addrA ltr_add2r ltr_spaddr ?ltr01 // le_maxr lexx orbT.
+have aa1 : a < a + 1 by rewrite ltr_addl ltr01.
+have [ya [/andP[aya ya1] -> nra noa]] := right_point F0 st lk lst aa1.
+have cby1 : cauchy_bound P <= y1.
+  by rewrite /y1 ler_paddr ?ler0n // le_maxr lexx.
+have nr1 y : y1 <= y -> ~~ root P y.
+  move=> y1y; apply/negP => /(cauchy_root_gt P0) /andP[_ h].
+  by have := lt_le_trans h (le_trans cby1 y1y); rewrite ltxx.
+rewrite (changes_pinfty_ev nzs nr1).
+have yay1 : ya < y1 := lt_trans ya1 ay1'.
+rewrite (chain_points F0 st yay1 nra (prod_nonroot (nr1 _ (lexx _)))).
+congr size; apply: lt_sorted_eq; first exact: sorted_roots.
+  by apply: sorted_filter (sorted_roots _ _ F); exact: lt_trans.
+move=> z; rewrite mem_filter in_rootsR // in_roots F0 andbT in_itv /= andbC.
+case rz: (root F z); rewrite ?andbF //= !andbT.
+have zy1 : z < y1.
+  by have /andP[_ h] := cauchy_root_gt P0 (FP _ rz); exact: lt_le_trans h cby1.
+rewrite zy1 andbT; apply/idP/idP => [yaz|az]; first exact: lt_trans aya yaz.
+by rewrite ltNge; apply/negP => zya; have := noa z; rewrite az zya rz => /(_ isT).
 Qed.
 
 End SturmFinite.
@@ -322,6 +470,38 @@ have lastE : last 0 (map PR (sturm_chain f)) = PR (last [::] (sturm_chain f)).
 by apply: sturm_chain_itv => //; rewrite lastE root_rat.
 Qed.
 
+
+Theorem count_roots_oc_minf (f : seq Z) (bn bd : Z) : ~~ pis_zero f -> (0 < bd)%R ->
+  psgn_at_rat (last [::] (sturm_chain f)) bn bd != 0 ->
+  count_roots_oc f MInf (Fin bn bd) = size [seq x <- rootsR (PR f) | x <= QR bn bd].
+Proof.
+move=> f0 bd0 lb.
+have F0 : PR f != 0 by rewrite PR_eq0.
+have ok := sturm_chain_certified f0.
+have st := chain_okP R ok; have lk := chain_ok_Rlinks ok.
+have nz : all (fun p => PR p != 0) (sturm_chain f).
+  by have := pposs_neq0 st (mods_neq0 _ _); rewrite all_map.
+rewrite /count_roots_oc sturm_var_fin // (sturm_var_minf nz).
+have lastE : last 0 (map PR (sturm_chain f)) = PR (last [::] (sturm_chain f)).
+  by rewrite -(PR_nil R) last_map.
+by apply: sturm_chain_minf => //; rewrite lastE root_rat.
+Qed.
+
+Theorem count_roots_oc_pinf (f : seq Z) (an ad : Z) : ~~ pis_zero f -> (0 < ad)%R ->
+  psgn_at_rat (last [::] (sturm_chain f)) an ad != 0 ->
+  count_roots_oc f (Fin an ad) PInf = size [seq x <- rootsR (PR f) | QR an ad < x].
+Proof.
+move=> f0 ad0 la.
+have F0 : PR f != 0 by rewrite PR_eq0.
+have ok := sturm_chain_certified f0.
+have st := chain_okP R ok; have lk := chain_ok_Rlinks ok.
+have nz : all (fun p => PR p != 0) (sturm_chain f).
+  by have := pposs_neq0 st (mods_neq0 _ _); rewrite all_map.
+rewrite /count_roots_oc sturm_var_fin // (sturm_var_pinf nz).
+have lastE : last 0 (map PR (sturm_chain f)) = PR (last [::] (sturm_chain f)).
+  by rewrite -(PR_nil R) last_map.
+by apply: sturm_chain_pinf => //; rewrite lastE root_rat.
+Qed.
 
 Lemma chain_last_root f x : ~~ pis_zero f -> root (PR (last [::] (sturm_chain f))) x ->
   root (PR f) x /\ root (PR f)^`() x.
